@@ -171,7 +171,13 @@ func (n *node) yaml(b *strings.Builder) {
 			if i > 0 {
 				b.WriteString(", ")
 			}
-			b.WriteString(strconv.Quote(k))
+			if strings.HasPrefix(k, "#") {
+				// a non-string YAML key (int / bool): emitted unquoted, decoded by yaml.v3 into
+				// a map[any]any
+				b.WriteString(k[1:])
+			} else {
+				b.WriteString(strconv.Quote(k))
+			}
 			b.WriteString(": ")
 			n.vals[i].yaml(b)
 		}
